@@ -9,6 +9,7 @@ import (
 	"go/token"
 	"go/types"
 	"sort"
+	"strconv"
 	"strings"
 
 	"golang.org/x/tools/go/ssa"
@@ -363,6 +364,14 @@ func (s *symb) expr0(v ssa.Value) *Sym {
 		}
 		if isStr && op == token.ADD {
 			return &Sym{Op: "bin:++", Args: []*Sym{a, b}, Val: v} // string concatenation: ordered
+		}
+		// (x - c1) - c2 is x - (c1+c2): an index computed in two steps reads as the one-step index
+		if op == token.SUB && b.Op == "const" && a.Op == "bin:-" && len(a.Args) == 2 && a.Args[1].Op == "const" {
+			if c1, err1 := strconv.ParseInt(a.Args[1].Leaf, 10, 64); err1 == nil {
+				if c2, err2 := strconv.ParseInt(b.Leaf, 10, 64); err2 == nil && c1 >= 0 && c2 >= 0 && c1+c2 < 1<<30 {
+					return &Sym{Op: "bin:-", Args: []*Sym{a.Args[0], {Op: "const", Leaf: strconv.FormatInt(c1+c2, 10), Val: b.Val}}, Val: v}
+				}
+			}
 		}
 		if commutative(op) && a.String() > b.String() {
 			a, b = b, a
